@@ -146,7 +146,10 @@ def scenario(sh: Shard, seed, idx, snap, ncmd):
 
 def shard(sh: Shard, seed, lo, hi, ncmd, snaps):
     for idx in range(lo, hi):
-        scenario(sh, seed, idx, snaps[(idx * 7 + 3) % len(snaps)], ncmd)
+        # one long-lived connection per run: enough commands for the command counter to wrap twice
+        scenario(sh, seed, idx, snaps[(idx * 7 + 3) % len(snaps)], 170 if idx == 0 else ncmd)
+        if idx == 0:
+            sh.count("threaded_long_connection_scenarios")
 
 
 def add(run, tier, seed):
@@ -156,3 +159,4 @@ def add(run, tier, seed):
     run.absorb(run_shards("checks.c13_threaded", "shard", jobs, timeout=3000))
     run.need(run.counters.get("threaded_commands_checked", 0) > 100, "threaded facade: too few commands checked")
     run.need(run.counters.get("threaded_idempotent_calls_checked", 0) > 10, "threaded facade: too few already-in-state calls")
+    run.need(run.counters.get("threaded_long_connection_scenarios", 0) >= 1, "threaded facade: the long-lived connection scenario did not run")
